@@ -263,3 +263,97 @@ class TKInitMissing(Spec):
 
 
 TK_MISSING = [TKInitMissing(m) for m in ("start", "stop", "dt")]
+
+
+# ---------------------------------------------------------------- ISO-8601 string branch of normalize_period
+# `re` is external. Assumed contract of re.match(r"^PT(\d+H)?(\d+M)?(\d+S)?$", s): None unless s has that shape;
+# otherwise groups() = (hours group, minutes group, seconds group), each None or "<digits><designator>".
+# What is verified: how normalize_period turns the groups into a duration, and that an all-empty match is rejected.
+
+from pyvc.interp import ModelObject  # noqa: E402
+
+
+class DigitStr(ModelObject):
+    def __init__(self, value):
+        self.value = value
+
+    def pv_int(self, cx):
+        return self.value
+
+
+class GroupStr(ModelObject):
+    """'<digits><designator>' with a symbolic non-negative number."""
+
+    def __init__(self, value, designator):
+        self.value, self.designator = value, designator
+
+    def pv_truth(self, cx):
+        return True  # a matched group is a non-empty string
+
+    def pv_getitem(self, cx, idx):
+        if isinstance(idx, slice) and idx.start is None and idx.stop == -1:
+            return DigitStr(self.value)
+        if idx == -1:
+            return self.designator
+        raise V.Unsupported("string index form")
+
+
+class PeriodString(ModelObject):
+    def pv_isinstance(self, tname):
+        return tname == "str"
+
+
+class Match(ModelObject):
+    def __init__(self, groups):
+        self._groups = groups
+
+    def pv_getattr(self, cx, name):
+        if name == "groups":
+            f = lambda interp: tuple(self._groups)  # noqa: E731
+            f._pyvc_model = True
+            return f
+        raise V.Unsupported(f"match.{name}")
+
+
+class NormalizePeriodISO(Spec):
+    """PTxHyMzS: 3600*x + 60*y + z seconds over the designators present; nothing present or no match: ValueError."""
+
+    func = "ladim.timekeeper.normalize_period"
+    properties = ("C13",)
+    inline = ()
+
+    def __init__(self, present):
+        self.present = present  # subset of "HMS", or None for "the pattern does not match"
+        self.name = f"normalize_period[ISO-8601 string, groups present: {present if present is not None else 'no match'}]"
+        spec = self
+
+        def re_match(interp, pattern, string, *a):
+            if pattern != r"^PT(\d+H)?(\d+M)?(\d+S)?$":
+                interp.cx.oblige("the ISO-8601 pattern is ^PT(\\d+H)?(\\d+M)?(\\d+S)?$", False, kind="post")
+            if spec.present is None:
+                return None
+            vals = dict(H=z3.Int("hours"), M=z3.Int("minutes"), S=z3.Int("seconds"))
+            for v in vals.values():
+                interp.cx.assume(v >= 0)
+            return Match([GroupStr(vals[d], d) if d in spec.present else None for d in "HMS"])
+
+        self.externals = {"re.match": re_match}
+
+    def inputs(self, cx):
+        return Args(per=PeriodString())
+
+    def raises(self, cx, a):
+        return [(self.present is None or self.present == "", "ValueError")]
+
+    def model(self, cx, a):
+        if not self.present:
+            return NotImplemented
+        mult = dict(H=3600, M=60, S=1)
+        vals = dict(H=z3.Int("hours"), M=z3.Int("minutes"), S=z3.Int("seconds"))
+        return sum((mult[d] * vals[d] for d in self.present), z3.IntVal(0))
+
+    def compare_roots(self, a, b, result):
+        return []
+
+
+TK_ISO = [NormalizePeriodISO(p) for p in ("H", "M", "S", "HM", "HS", "MS", "HMS", "", None)]
